@@ -1266,7 +1266,7 @@ func c10Boundary(r *c10Rand, c *c10Case, self, other common.Address) (code []byt
 		a.push(1).push(0).op(SSTORE).op(STOP)
 	case 2: // call depth recursion until the limit
 		name = "call-depth-1024"
-		c.gas = 400000000000 + uint64(r.Intn(1000))
+		c.gas = 1000000000000000 + uint64(r.Intn(1000))
 		// slot0 += 1 in own storage is too expensive; use memory-free recursion: call self, return success flag + depth in returndata
 		a.push(32).push(0).push(0).push(0)
 		kind := []OpCode{CALL, DELEGATECALL, STATICCALL, CALLCODE}[r.Intn(4)]
